@@ -19,7 +19,7 @@ import gram_decl  # noqa: E402
 import vlib  # noqa: E402
 
 GROUPS = ["int", "real", "dur", "time", "text"]
-TYPE_OF = {"int": "INT", "bits": "WORD", "real": "REAL", "dur": "TIME", "date": "DATE", "tod": "TOD", "dt": "DT", "str": "STRING"}
+TYPE_OF = {"int": "INT", "bits": "WORD", "real": "REAL", "dur": "TIME", "date": "DATE", "tod": "TOD", "dt": "DT", "str": "STRING", "bool": "BOOL"}
 CHAR = {"SP": " ", "LF": "\n", "FF": "\f", "CR": "\r", "TAB": "\t"}
 F64_MAX = Fraction(2 ** 1024 - 2 ** 971)
 
@@ -118,6 +118,10 @@ def compare(rec, obs):
             return "node-kind"
         want = "".join(CHAR.get(c, c) for c in v["chars"])
         return None if obs[1] == want else "value"
+    if k == "bool":
+        if obs[0] != "Bool":
+            return "node-kind:%s" % obs[0]
+        return None if obs[1] == ("TRUE" if v["v"] else "FALSE") else "value"
     if k == "addr":
         if obs[0] != "Addr":
             return "node-kind:%s" % obs[0]
